@@ -163,7 +163,7 @@ _TEXTS = {
     "var(--color3, #0000FF40)": ((0, 0, 255), 0x40 / 255, 3),
     "var(--color0,red)": ((255, 0, 0), 1, 0),
 }
-_BAD_TEXTS = ("#FF00000", "#12345678F", "#12345", "#1", "foo(1,2)", "hsl(10,20%,30%)", "rgb(1,2)", "notacolour")
+_BAD_TEXTS = ("#FF00000", "#12345678F", "#12345", "#1", "foo(1,2)", "hsl(10,20%,30%)", "rgb(1,2)", "notacolour", "var(--color2, red) junk", "var(--color1, red)x")
 
 
 @contract("nanoemoji.colors.Color.fromstring", props=["C01", "C03", "C15", "C17"])
